@@ -320,6 +320,82 @@ def cli_replay_pair(a, b):
     return rep
 
 
+SPLIT_QUERIES = [
+    'name from /r1, /r2 where size > 1',
+    'path from /home/u/old, /home/u/new where name = x',
+    'name from /r1 depth 2, /r2 sym, /r3',
+    'name, size from . where size gt 1 and name ne x order by size desc, name limit 3',
+    'select lower(name), size from . into json',
+    'count(*), max(size) from /r1 where is_dir = false',
+    'name from . where name like %.txt or (size > 1 and size < 9)',
+    'concat(name, ext) from /r1, /r2',
+]
+
+
+def fam_lexer_splits(sess):
+    """the same query as one argument and split into shell words at ANY subset of its whitespace positions: identical lexem
+    sequences. The subset is a solver bit-vector (one bit per whitespace position); the lexer is run on the argv it denotes."""
+    prog = sess.prog
+    fam = 'lexer_splits'
+    ex = sess.executor(lexer_models(), unwind=800, maxsteps=4000000)
+    quick = sess.tier == 'quick'
+    sess.bounds[fam] = {'queries': SPLIT_QUERIES, 'split sets': 'every subset of the whitespace positions (<= %d free positions per query) in which every search-root word is a shell word of its own' % (5 if quick else 14)}
+    for q in SPLIT_QUERIES:
+        words = q.split(' ')
+        k = len(words) - 1
+        # a search-root word: the word after `from` and after a comma-terminated word of the root list. With several shell
+        # words fselect takes the rest of the shell word as the root (paths with blanks), so whenever the query is split at
+        # all it must be split right after every root word; a root word carrying blanks denotes another path: outside.
+        root_after = set()
+        in_roots = False
+        for i, w in enumerate(words):
+            lw = w.lower()
+            if lw == 'from':
+                in_roots = True
+                if i + 1 < len(words):
+                    root_after.add(i + 1)
+                continue
+            if lw in ('where', 'order', 'group', 'limit', 'into'):
+                in_roots = False
+            if in_roots and w.endswith(',') and i + 1 < len(words):
+                root_after.add(i + 1)
+        free = [i for i in range(k) if i not in root_after][:(5 if quick else 14)]
+        box = {'paths': 0}
+
+        def run(ctx, q=q, words=words, free=free, root_after=root_after, k=k):
+            mask = ctx.fresh_bv('split_mask', len(free) + 1)
+            mv = ctx.concretize(mask, range(1 << (len(free) + 1)))
+            cut = {p for j, p in enumerate(free) if (mv >> j) & 1}
+            if mv:
+                cut |= {p for p in root_after if p < k}
+            parts = [words[0]]
+            for i, w in enumerate(words[1:]):
+                if i in cut:
+                    parts.append(w)
+                else:
+                    parts[-1] += ' ' + w
+            if 'single' not in box:
+                box['single'] = lex_all(ctx, prog, [q])      # concrete and deterministic: computed once per query
+            return parts, box['single'], lex_all(ctx, prog, parts)
+
+        def on_path(ctx, out, q=q):
+            name = 'lexer splits of %r' % q
+            box['paths'] += 1
+            if out[0] != 'ret':
+                if not box.get('bad'):
+                    box['bad'] = True; sess.inconclusive(name, str(out)[:300], fam)
+                return
+            parts, la, lb = out[1]
+            if la != lb and not box.get('viol'):
+                box['viol'] = True
+                i = next((j for j in range(min(len(la), len(lb))) if la[j] != lb[j]), min(len(la), len(lb)))
+                sess.violated(name, 'lexer/split:' + q[:40], 'argv %r is lexed differently from the one-argument form at lexem %d: %r vs %r' % (
+                    parts, i, lb[i:i + 2], la[i:i + 2]), {'argv': parts, 'query': q}, cli_replay_pair([q], parts), fam)
+        ex.explore(run, on_path)
+        if not box.get('viol') and not box.get('bad'):
+            sess.discharged('lexer splits of %r (%d split sets)' % (q[:50], box['paths']), family=fam, queries=box['paths'])
+
+
 PARSE_PAIRS = [
     (['name', 'size', 'from', '.'], ['select', 'name', ',', 'size', 'from', '.']),
     (['name', 'from', '.', 'order', 'by', 'size'], ['name', 'from', '.', 'order', 'by', 'size', ',']),
@@ -371,9 +447,9 @@ def main(sess):
     sess.engines = ['mirsym (MIR symbolic execution) + z3']
     sess.assumptions += [
         'alias groups: the tables of the property statement plus multi-name rows of docs/usage.md (parsed at run time)',
-        'the lexer families execute the real lexer MIR on concrete words / queries (no symbolic input); invariance under every whitespace split point set is covered only for the listed pairs',
+        'the lexer families execute the real lexer MIR on concrete words / queries; lexer_splits: the split-point set is a solver bit-vector, every subset of the whitespace positions of the listed queries is explored (root paths without blanks)',
     ]
     only = getattr(sess, 'only', None)
-    for name, f in (('alias', fam_alias), ('lexer_words', fam_lexer_words), ('lexer_pairs', fam_lexer_pairs), ('parse_pairs', fam_parse_pairs)):
+    for name, f in (('alias', fam_alias), ('lexer_words', fam_lexer_words), ('lexer_pairs', fam_lexer_pairs), ('lexer_splits', fam_lexer_splits), ('parse_pairs', fam_parse_pairs)):
         if not only or name in only:
             f(sess)
